@@ -735,6 +735,43 @@ func c05Prefixes(c *Ctx) {
 	}
 	genP("", maxP)
 	c.Note("prefix_pairs", fmt.Sprint(len(prefixes)*len(conts)))
+	c05PrefixRun(c, prefixes, conts)
+	// second family: every printable ASCII character (and a few Latin-1 and
+	// other bases) as the LAST character of the prefix, after a short stem,
+	// continued by every combining mark of U+0300..U+036F (alone, and
+	// thorough: in pairs) and by the hazard alphabet
+	var wide []string
+	stems := append([]string{""}, sigma...)
+	var lasts []string
+	for r := rune(0x20); r < 0x7f; r++ {
+		lasts = append(lasts, string(r))
+	}
+	for _, r := range []rune{0xc5, 0xe9, 0xf1, 0x3b1, 0x43a, 0x915, 0x3042, 0x1100, 0xac00, 0x212b, 0x1e0b} {
+		lasts = append(lasts, string(r))
+	}
+	for _, st := range stems {
+		for _, l := range lasts {
+			wide = append(wide, st+l)
+		}
+	}
+	var marks []string
+	for r := rune(0x300); r <= 0x36f; r++ {
+		marks = append(marks, string(r))
+	}
+	marks = append(marks, "\u093c", "\u3099", "\u0323", "\u0327")
+	wconts := append(append([]string{""}, marks...), sigma...)
+	if c.Thorough {
+		for _, a := range marks {
+			for _, b := range []string{"\u0301", "\u0323", "\u0338", "\u0308", "a"} {
+				wconts = append(wconts, a+b, b+a)
+			}
+		}
+	}
+	c.Note("wide_prefix_pairs", fmt.Sprint(len(wide)*len(wconts)))
+	c05PrefixRun(c, wide, wconts)
+}
+
+func c05PrefixRun(c *Ctx, prefixes, conts []string) {
 	const chunk = 16
 	for i := 0; i < len(prefixes); i += chunk {
 		lo, hi := i, i+chunk
